@@ -763,7 +763,23 @@ class TrigTime:
                 start, _ = await cls.parse_date_time(dt_start.strip(), 0, now, startup_time)
                 end, _ = await cls.parse_date_time(dt_end.strip(), 0, start, startup_time)
 
-                if start <= end:
+                first_word = re.match(r"\w+", dt_start.strip().lower())
+                if first_word and first_word[0] in cls.dow2int:
+                    #
+                    # a range that starts on a day of the week recurs weekly: it runs from the most
+                    # recent such day (possibly last week's) to the first end at or after that start
+                    #
+                    if start > now:
+                        start, _ = await cls.parse_date_time(
+                            dt_start.strip(), 0, now - dt.timedelta(days=7), startup_time
+                        )
+                        end, _ = await cls.parse_date_time(dt_end.strip(), 0, start, startup_time)
+                    if end < start:
+                        end, _ = await cls.parse_date_time(
+                            dt_end.strip(), 0, start + dt.timedelta(days=1), startup_time
+                        )
+                    this_match = start <= now <= end
+                elif start <= end:
                     this_match = start <= now <= end
                 else:  # Over midnight
                     this_match = now >= start or now <= end
